@@ -291,7 +291,14 @@ func H_Proof() {
 	forged := encodePairs(pt)
 	var fh, fv []byte
 	var ferr error
-	if vp.NoPanic("C10.verify.nopanic", func() { fh, fv, ferr = wmpt.New(nil, nil).VerifyBlockProof(b, forged) }) {
+	// the verifier is a fresh trie, or one that has already verified the honest proof
+	ver := wmpt.New(nil, nil)
+	if vp.Choose("reused-verifier", 2) == 1 {
+		if vp.NoPanic("C10.verify.nopanic", func() { ver.VerifyBlockProof(b, proof) }) {
+			return
+		}
+	}
+	if vp.NoPanic("C10.verify.nopanic", func() { fh, fv, ferr = ver.VerifyBlockProof(b, forged) }) {
 		return
 	}
 	accepted := ferr == nil && bytes.Equal(fh, trusted)
